@@ -70,6 +70,9 @@ type Runner struct {
 	holdISms       int    // >0: the next InstallSnapshot request is held that long in the network (staleis macro)
 	heldISFrom     string // its sender, once seen
 	heldISUntil    int64
+	lateCopyISms   int    // >0: the next InstallSnapshot request that is delivered is delivered a second time that many ms later (latesnapshot macro)
+	lateCopyFrom   string // its sender, once seen
+	lateCopyDue    int64
 	dropAppendAcks bool // acknowledgements of AppendEntries that carry entries are lost (inheritedtail macro)
 	aeBudget       map[string]int // per sender: that many AppendEntries carrying entries get through to each receiver, the rest are lost; absent = no limit (figure8 macro)
 	aeUsed         map[string]int // "from>to" -> requests let through so far
@@ -279,11 +282,20 @@ func (r *Runner) policy(m *sim.Msg, resp bool) sim.Verdict {
 	if resp {
 		from, to = m.To, m.From
 	}
+	if m.Late && !resp {
+		return sim.VDeliver // a copy that was already in flight: no later cut stops it
+	}
 	if r.cut[[2]string{from, to}] {
 		if r.refuse && !resp {
 			return sim.VRefuse
 		}
 		return sim.VDrop
+	}
+	if r.lateCopyISms > 0 && !resp && m.Kind == sim.KSnapshot && !m.Dup && m.Pipe == nil && !r.quiet {
+		m.LateCopyMs = r.lateCopyISms
+		r.lateCopyFrom, r.lateCopyDue = m.From, r.W.Now()+int64(r.lateCopyISms)
+		r.lateCopyISms = 0
+		r.feat("msg-duplicated")
 	}
 	if r.holdISms > 0 && !resp && m.Kind == sim.KSnapshot && !r.cut[[2]string{from, to}] {
 		m.ReadyAt = r.W.Now() + int64(r.holdISms)
